@@ -2,7 +2,7 @@
 
 A *case* is (kind, transport, auth, nb, ops): kind in threaded | pool | oneshot | forking, transport in
 tcp | unix, ops = the token strings of lean/Driver/Server.lean (c<k>:<g|b|s|r>, c<k>:g:<j>, m<k>, h<k>, w<k>, k<k>:<g|b>, p<k>, l<k>,
-o<k>:<n>, d<k>:<n>, g<k>, a<k>, z<k>, X, i<k>:<hbt..>, r<k>:<hex>).  `Session` starts the real server (threaded / pool / one-shot in this
+o<k>:<n>, d<k>:<n>, g<k>, a<k>, z<k>, X, E, i<k>:<hbt..>, r<k>:<hex>).  `Session` starts the real server (threaded / pool / one-shot in this
 process on port 0 or a temp unix path; the forking server in a subprocess, because fork and SIGCHLD want a
 main thread of their own), executes one op at a time with real client sockets, and renders what can be
 observed in the text form the driver prints:
@@ -196,6 +196,56 @@ class PollRecorder(object):
         return self.inner.poll(timeout)
 
 
+class FaultyListener(object):
+    """the server's listener socket, whose accept() fails once on demand (`arm(errno)`): an event of the environment the
+    harness cannot produce otherwise without really running the process out of descriptors"""
+    def __init__(self, sock):
+        self._sock = sock
+        self._fail = None
+        self.failed = 0
+
+    def arm(self, e):
+        self._fail = e
+
+    def disarm(self):
+        self._fail = None
+
+    def accept(self):
+        # what `socket.accept()` does (block for at most the socket's timeout), in slices, so that an armed error is delivered at
+        # once whatever the timeout (a unix listener has none: its accept() would sit there until the next connection)
+        timeout = self._sock.gettimeout()
+        t0 = time.time()
+        while True:
+            e, self._fail = self._fail, None
+            if e is not None:
+                self.failed += 1
+                raise OSError(e, os.strerror(e))
+            try:
+                r, _, _ = select.select([self._sock], [], [], 0.03)
+            except (ValueError, OSError):
+                raise OSError(errno.EBADF, os.strerror(errno.EBADF))      # the listener has been closed
+            if r:
+                return self._sock.accept()
+            if timeout is not None and time.time() - t0 >= timeout:
+                raise socket.timeout("timed out")
+
+    def __getattr__(self, name):
+        return getattr(self._sock, name)
+
+
+FAULT_ERRNOS = [errno.EMFILE, errno.ECONNABORTED, errno.ENOBUFS, errno.EPROTO]
+
+
+def inject_accept_fault(listener, n):
+    """returns "-" once the accept loop has met the error, "skip" if nobody called accept() within 1.5 s"""
+    before = listener.failed
+    listener.arm(FAULT_ERRNOS[n % len(FAULT_ERRNOS)])
+    if wait_for(lambda: listener.failed > before, 1.5) is None:
+        listener.disarm()
+        return "skip"
+    return "-"
+
+
 # ------------------------------------------------------------------------------------------ progress counter
 FRAMES = [0]
 _frame_sink = [None]
@@ -333,6 +383,8 @@ class InProcBackend(object):
             raise Infra("cannot bind a %s listener: %s" % (transport, ex))
         if kind == "pool":
             self.srv.poll_object = PollRecorder(self.srv.poll_object)
+        self.srv.listener = FaultyListener(self.srv.listener)
+        self.nfaults = 0
         self.thread = self.srv._start_in_thread()
         self.close_threads = []
         self.close_results = []      # one list per close() call: empty while it has not returned
@@ -359,6 +411,10 @@ class InProcBackend(object):
         with self.lock:
             hooks = list(self.hooks)
         return hooks
+
+    def accept_fault(self):
+        self.nfaults += 1
+        return inject_accept_fault(self.srv.listener, self.nfaults)
 
     def close_server(self, ceiling):
         """server.close() from a thread of its own, so that a close that does not return is an observation"""
@@ -463,6 +519,9 @@ class ForkBackend(object):
     def close_server(self, ceiling):
         return self._cmd("close")
 
+    def accept_fault(self):
+        return self._cmd("fault")
+
     def teardown(self):
         try:
             self.proc.stdin.write("exit\n")
@@ -543,7 +602,8 @@ def forking_child_main(argv):
     except OSError as ex:
         print(json.dumps(dict(error=str(ex))), flush=True)
         return 2
-    state = dict(returned=False, close=None)
+    srv.listener = FaultyListener(srv.listener)
+    state = dict(returned=False, close=None, faults=0)
 
     def on_usr1(*a):
         try:
@@ -578,6 +638,9 @@ def forking_child_main(argv):
                     say("hang")
                 else:
                     say(state["close"])
+            elif cmd == "fault":
+                state["faults"] += 1
+                say(inject_accept_fault(srv.listener, state["faults"]))
             elif cmd == "exit":
                 os._exit(0)
         os._exit(0)
@@ -979,6 +1042,8 @@ class Session(object):
         self.refresh_fds()
         if t == "X":
             return self.backend.close_server(self.call_timeout + 1.0)
+        if t == "E":
+            return self.backend.accept_fault()
         if t == "c":
             parts = rest.split(":")
             k, cred = int(parts[0]), parts[1]
